@@ -4,8 +4,9 @@
 //# modpath: air::boundary
 //# assets: tiny models
 //# props: C22 C23
-//# subst: air/src/air/boundary/mod.rs | collections::{BTreeMap, BTreeSet}, | <empty>
-//# attach: air/src/air/boundary/mod.rs | ^mod constraint; | #[cfg(kani)] use utils::verif_models::{BTreeMap, BTreeSet}; #[cfg(not(kani))] use alloc::collections::{BTreeMap, BTreeSet};
+//# subst_opt: air/src/air/boundary/mod.rs | collections::{BTreeMap, BTreeSet}, | <empty>
+//# subst_opt: air/src/air/boundary/mod.rs | collections::BTreeMap, | <empty>
+//# attach: air/src/air/boundary/mod.rs | ^mod constraint; | #[cfg(kani)] #[allow(unused_imports)] use utils::verif_models::{BTreeMap, BTreeSet}; #[cfg(not(kani))] #[allow(unused_imports)] use alloc::collections::{BTreeMap, BTreeSet};
 //# subst: air/src/air/boundary/constraint.rs | use alloc::{collections::BTreeMap, vec::Vec}; | use alloc::vec::Vec; #[cfg(kani)] use utils::verif_models::BTreeMap; #[cfg(not(kani))] use alloc::collections::BTreeMap;
 //# subst: air/src/air/boundary/constraint_group.rs | use alloc::{collections::BTreeMap, vec::Vec}; | use alloc::vec::Vec; #[cfg(kani)] use utils::verif_models::BTreeMap; #[cfg(not(kani))] use alloc::collections::BTreeMap;
 //! C22 / C23 (field clauses) — over the verification-only field F_17 (trace length 8):
